@@ -1,3 +1,158 @@
 import QcoVerif.Model.Builder
+/-
+  C05 — copies are faithful and independent.
+
+  Class level (full): the per-class `copy()` methods (`Op.copyFields`, written to mirror the source field by
+  field; compared with the real methods for all 26 classes by the correspondence run) keep kind, qubits, channel,
+  duration strategy, tag and annotation fields of every operation the constructors can produce, and the link
+  copy keeps the relation type.  Heap level: a copy allocates only fresh objects and links and writes to no
+  existing one (`copyLeaf_frame`, `copyLink_frame`) — the basis of independence.
+  Graph level (NOT proved, and false without a side condition): "the copy's listing is the image of the
+  original's with every internal relation re-pointed" fails when two distinct nodes are value-equal keys of the
+  transfer lookup (known finding R3); `lookup_overwrite_witness` shows the conflation on the lookup itself.
+-/
 namespace Qco.C05
+
+open Qco
+
+/-- what the public constructors can produce: fields a class does not have keep their defaults, and classes whose
+    duration strategy is not a constructor argument carry the class default. -/
+def Op.WellFormed (op : Op) : Prop :=
+  (op.cls ∈ [Cls.wait, .vacant, .empty, .twovacant] ∨ op.chan = .all) ∧
+  (op.cls ∈ [Cls.single, .two, .wait, .vacant, .empty, .twovacant] ∨ op.dur = op.cls.defaultDur) ∧
+  (op.cls = .measure ∨ (op.tag = 0 ∧ op.reg = 0)) ∧
+  (op.cls ∈ [Cls.detector, .observable, .cshift] ∨ op.ints = []) ∧
+  op.cls ≠ .comp
+
+/-- **per-class copy is faithful**: kind, qubits, channel, duration strategy, acquisition tag and annotation
+    fields are those of the original — for each of the 26 leaf classes. -/
+theorem copy_class_faithful (op : Op) (h : Op.WellFormed op) :
+    op.copyFields.cls = op.cls ∧ op.copyFields.qs = op.qs ∧ op.copyFields.chan = op.chan ∧
+    op.copyFields.dur = op.dur ∧ op.copyFields.tag = op.tag ∧ op.copyFields.ints = op.ints ∧
+    op.copyFields.leafChans = op.leafChans := by
+  obtain ⟨hc, hd, ht, hi, hne⟩ := h
+  cases hcls : op.cls <;>
+    simp_all [Op.copyFields, Op.leafChans, Cls.defaultDur, Op.WellFormed]
+
+/-- every class transfers its relation (Barrier and CoordinateShiftOperation since the R4 repair). -/
+theorem copy_keeps_link_all_classes (c : Cls) : c.copyKeepsLink = true := rfl
+
+theorem newLink_lnk_new (w : World) (L : Link) : (w.newLink L).1.lnk (w.newLink L).2 = L := by
+  simp [World.newLink, World.lnk, Array.getD]
+
+theorem newLink_lnk_old (w : World) (L : Link) (i : Nat) (h : i < w.links.size) :
+    (w.newLink L).1.lnk i = w.lnk i := by
+  simp [World.newLink, World.lnk, Array.getD, Array.size_push, h, Nat.lt_succ_of_lt h, Array.getElem_push_lt h]
+
+theorem newOp_op_old (w : World) (o : Op) (i : Nat) (h : i < w.ops.size) : (w.newOp o).1.op i = w.op i := by
+  simp [World.newOp, World.op, Array.getD, Array.size_push, h, Nat.lt_succ_of_lt h, Array.getElem_push_lt h]
+
+theorem newOp_op_new (w : World) (o : Op) : (w.newOp o).1.op (w.newOp o).2 = o := by
+  simp [World.newOp, World.op, Array.getD]
+
+/-- the link copy is the allocation of ONE new link on a heap with the same objects and links. -/
+theorem copyLink_eq (w : World) (l : Nat) (lk : Lookup) :
+    ∃ (w' : World) (L : Link), w'.ops = w.ops ∧ w'.links = w.links ∧ w.copyLink l lk = w'.newLink L ∧
+      L.rel = (w.lnk l).rel ∧ L.multi = (w.lnk l).multi := by
+  unfold World.copyLink
+  by_cases hm : (w.lnk l).multi = true
+  · have hc : ¬ ((!(w.lnk l).multi) = true) := by simp [hm]
+    simp only [if_neg hc]
+    refine ⟨{ w with warnings := w.warnings +
+        ((w.lnk l).refs.filter (fun r => (lk.get? (w.eqKey r)).isNone)).length },
+      { multi := true, refs := (w.lnk l).refs.filterMap (fun r => lk.get? (w.eqKey r)), rel := (w.lnk l).rel },
+      rfl, rfl, rfl, rfl, ?_⟩
+    simp [hm]
+  · have hm' : (w.lnk l).multi = false := by simpa using hm
+    have hc : (!(w.lnk l).multi) = true := by simp [hm']
+    simp only [if_pos hc]
+    refine ⟨w, { refs := (match (w.lnk l).refs.head? with
+        | none => []
+        | some r => match lk.get? (w.eqKey r) with
+          | none => []
+          | some r' => [r']), rel := (w.lnk l).rel }, rfl, rfl, rfl, rfl, ?_⟩
+    simp [hm']
+
+/-- the link copy keeps the relation type and the kind of link. -/
+theorem copyLink_rel (w : World) (l : Nat) (lk : Lookup) :
+    ((w.copyLink l lk).1.lnk (w.copyLink l lk).2).rel = (w.lnk l).rel ∧
+    ((w.copyLink l lk).1.lnk (w.copyLink l lk).2).multi = (w.lnk l).multi ∧
+    (w.copyLink l lk).2 = w.links.size := by
+  obtain ⟨w', L, _, hl, he, hr, hm⟩ := copyLink_eq w l lk
+  rw [he, newLink_lnk_new]
+  exact ⟨hr, hm, by simp [World.newLink, hl]⟩
+
+/-- the link copy leaves every existing object and link as it was. -/
+theorem copyLink_frame (w : World) (l : Nat) (lk : Lookup) :
+    (w.copyLink l lk).1.ops = w.ops ∧
+    ∀ i, i < w.links.size → (w.copyLink l lk).1.lnk i = w.lnk i := by
+  obtain ⟨w', L, ho, hl, he, _, _⟩ := copyLink_eq w l lk
+  rw [he]
+  refine ⟨by simp [World.newLink, ho], fun i hi => ?_⟩
+  rw [newLink_lnk_old w' L i (hl ▸ hi)]
+  simp [World.lnk, hl]
+
+/-- **a leaf copy is a fresh object**: its identity is new and no existing object or link is written — whatever
+    is done to the copy later through its own identity cannot be observed through the original's. -/
+theorem copyLeaf_frame (w : World) (o : Nat) (lk : Lookup) :
+    (w.copyLeaf o lk).2 = w.ops.size ∧
+    (∀ i, i < w.ops.size → (w.copyLeaf o lk).1.op i = w.op i) ∧
+    (∀ i, i < w.links.size → (w.copyLeaf o lk).1.lnk i = w.lnk i) := by
+  unfold World.copyLeaf
+  simp only [copy_keeps_link_all_classes, if_true]
+  have hf := copyLink_frame w (w.op o).link lk
+  refine ⟨?_, ?_, ?_⟩
+  · simp [World.newOp, hf.1]
+  · intro i hi
+    rw [newOp_op_old _ _ i (by rw [hf.1]; exact hi)]
+    have h1 := hf.1
+    unfold World.op at h1 ⊢
+    rw [h1]
+  · intro i hi
+    simp only [World.newOp]
+    exact hf.2 i hi
+
+/-- the copy carries the class-faithful fields. -/
+theorem copyLeaf_fields (w : World) (o : Nat) (lk : Lookup) :
+    ((w.copyLeaf o lk).1.op (w.copyLeaf o lk).2).cls = (w.op o).copyFields.cls ∧
+    ((w.copyLeaf o lk).1.op (w.copyLeaf o lk).2).qs = (w.op o).copyFields.qs ∧
+    ((w.copyLeaf o lk).1.op (w.copyLeaf o lk).2).chan = (w.op o).copyFields.chan ∧
+    ((w.copyLeaf o lk).1.op (w.copyLeaf o lk).2).dur = (w.op o).copyFields.dur ∧
+    ((w.copyLeaf o lk).1.op (w.copyLeaf o lk).2).tag = (w.op o).copyFields.tag ∧
+    ((w.copyLeaf o lk).1.op (w.copyLeaf o lk).2).ints = (w.op o).copyFields.ints := by
+  unfold World.copyLeaf
+  simp only [copy_keeps_link_all_classes, if_true]
+  rw [newOp_op_new]
+  exact ⟨rfl, rfl, rfl, rfl, rfl, rfl⟩
+
+/-- the Python `dict` semantics of the transfer lookup: a second object with an equal key overwrites the entry of
+    the first, so a follower of the first is re-pointed to the copy of the second (the mechanism behind R3). -/
+theorem lookup_overwrite_witness (k : EqKey) (a b : Nat) :
+    (Lookup.set (Lookup.set ([] : Lookup) k a) k b).get? k = some b := by
+  simp [Lookup.set, Lookup.get?]
+
+/-- after `set k v` the lookup answers `v` for `k` (whether the key was new or overwritten). -/
+theorem lookup_get_set (lk : Lookup) (k : EqKey) (v : Nat) : (Lookup.set lk k v).get? k = some v := by
+  unfold Lookup.set Lookup.get?
+  induction lk with
+  | nil => simp
+  | cons p ps ih =>
+    by_cases hp : p.1 = k
+    · simp [hp]
+    · have hp' : (p.1 == k) = false := by simpa using hp
+      by_cases h : ps.any (fun p => p.1 == k) = true
+      · simp only [List.any_cons, hp', Bool.false_or, h, if_true, List.map_cons, Bool.false_eq_true, if_false,
+          List.find?_cons] at ih ⊢
+        exact ih
+      · have h' : ps.any (fun p => p.1 == k) = false := Bool.eq_false_iff.mpr h
+        simp only [List.any_cons, hp', Bool.false_or, h', Bool.false_eq_true, if_false, List.cons_append,
+          List.find?_cons] at ih ⊢
+        exact ih
+
+/-- non-vacuity: a Wait on the flux channel with a registry duration, and a measurement with a tag. -/
+example : Op.WellFormed { cls := .wait, qs := [1], chan := .fl, dur := .reg 2 } := by
+  simp [Op.WellFormed]
+example : Op.WellFormed { cls := .measure, qs := [0], dur := .glob .ro, tag := 2, reg := 5 } := by
+  simp [Op.WellFormed, Cls.defaultDur]
+
 end Qco.C05
